@@ -8,6 +8,9 @@ use std::os::unix::net::UnixDatagram;
 use std::path::PathBuf;
 use std::sync::mpsc;
 
+use std::sync::atomic::{AtomicBool, Ordering};
+use std::sync::Arc;
+
 enum Msg { Frame(String, [u8; 16]), Sync }
 
 pub struct Bus {
@@ -17,6 +20,7 @@ pub struct Bus {
     inj: UnixDatagram,
     rx: mpsc::Receiver<Msg>,
     pub log: Vec<(String, [u8; 16])>,
+    paused: Arc<AtomicBool>,
 }
 
 pub fn bus_dir() -> PathBuf {
@@ -51,9 +55,12 @@ impl Bus {
         let hub = UnixDatagram::bind(&hp).unwrap();
         let (tx, rx) = mpsc::channel();
         let (d2, i2) = (dir.clone(), iface.to_string());
+        let paused = Arc::new(AtomicBool::new(false));
+        let p2 = paused.clone();
         std::thread::spawn(move || {
             let mut buf = [0u8; 64];
             loop {
+                while p2.load(Ordering::SeqCst) { std::thread::sleep(std::time::Duration::from_millis(1)); }
                 let Ok((n, addr)) = hub.recv_from(&mut buf) else { break };
                 if n == 16 {
                     let mut raw = [0u8; 16];
@@ -79,7 +86,7 @@ impl Bus {
         let ctl = UnixDatagram::unbound().unwrap();
         ctl.connect(&hp).unwrap();
         let inj = UnixDatagram::unbound().unwrap();
-        Bus { dir, iface: iface.to_string(), ctl, inj, rx, log: Vec::new() }
+        Bus { dir, iface: iface.to_string(), ctl, inj, rx, log: Vec::new(), paused }
     }
 
     pub fn endpoints(&self) -> Vec<PathBuf> { endpoints_of(&self.dir, &self.iface) }
@@ -96,6 +103,16 @@ impl Bus {
         }
         out
     }
+
+    /// a congested bus: the hub stops reading and its receive queue is filled, so senders block
+    pub fn congest(&self) {
+        self.paused.store(true, Ordering::SeqCst);
+        std::thread::sleep(std::time::Duration::from_millis(5));
+        let _ = self.ctl.set_nonblocking(true);
+        for _ in 0..64 { if self.ctl.send(&[9u8, 9, 9]).is_err() { break; } }
+        let _ = self.ctl.set_nonblocking(false);
+    }
+    pub fn release(&self) { self.paused.store(false, Ordering::SeqCst); }
 
     /// a frame from "somewhere else on the bus": delivered to every endpoint
     pub fn inject(&self, raw: &[u8; 16]) {
